@@ -104,7 +104,7 @@ def _gen_value_type(rng, depth=0):
 
 def gen_case(rng, params, idx):
     target = _gen_value_type(rng)
-    npos = 2 if rng.random() < 0.2 else 1
+    npos = rng.choice([1, 1, 1, 1, 1, 1, 2, 2, 3])
     methods = [{"mid": 0, "pos": [{"n": "a0", "t": target}], "kw": [], "prio": 0, "kind": "leaf"}]
     shape = rng.choice(["none", "few_lits", "many_lits", "many_lits", "overlap_lits", "mixed", "other_types"])
     comps = []
@@ -127,13 +127,14 @@ def gen_case(rng, params, idx):
             continue
         seen.add(T.tname(c))
         methods.append({"mid": len(methods), "pos": [{"n": "a0", "t": c}], "kw": [], "prio": 0, "kind": "leaf"})
-    if npos == 2:
+    for j in range(1, npos):
         for m in methods:
-            m["pos"].append({"n": "a1", "t": rng.choice(["int", "object", ["L", 1], "int"])})
+            m["pos"].append({"n": f"a{j}", "t": rng.choice(["int", "object", ["L", 1], "int", "MyInt", ["L", 1, 2]] if j == 1
+                                                            else ["object", "int", "MyInt", "object"])})
     methods.append({"mid": 99, "pos": [{"n": f"a{j}", "t": "object"} for j in range(npos)], "kw": [], "prio": -1,
                     "kind": "leaf"})
     return {"hier": [], "methods": methods, "npos": npos, "shape": shape,
-            "second": rng.choice([["v", 1], ["v", 2], ["v", "a"]]) if npos == 2 else None}
+            "rest": [rng.choice([["v", 1], ["v", 2], ["v", "a"], ["mi", 1]]) for _ in range(1, npos)]}
 
 
 def _family(t):
@@ -175,13 +176,14 @@ def check_case(spec, res):
     res.sample(spec, _family(target))
     if sum(1 for m in methods if m["pos"][0]["t"][0] == "L") >= 4:
         res.count("companions_ge4_literals")
-    if spec["npos"] == 2:
+    if spec["npos"] >= 2:
         res.count("second_position")
     tobjs = {m["mid"]: normalize_type(T.ann(m["pos"][0]["t"], env), None) for m in methods}
     shape = [spec["shape"], len(methods), spec["npos"]]
     for vx in CORPUS:
         v = T.value(vx, env)
-        call = {"pos": [vx] + ([spec["second"]] if spec["npos"] == 2 else []), "kw": {}}
+        rest = spec.get("rest") or ([spec["second"]] if spec.get("second") else [])
+        call = {"pos": [vx] + rest, "kw": {}}
         second_ok = {}
         M, unspec, broken = [], False, None
         for m in methods[:-1]:
@@ -189,12 +191,15 @@ def check_case(spec, res):
             if isinstance(c, tuple):
                 broken = (m["mid"], c)
                 break
-            if spec["npos"] == 2:
-                c2 = T.accepts(m["pos"][1]["t"], env, T.value(spec["second"], env))
+            skip = False
+            for j, rv in enumerate(rest, start=1):
+                c2 = T.accepts(m["pos"][j]["t"], env, T.value(rv, env))
                 if c2 is None:
                     unspec = True
                 elif c2 is False:
-                    continue
+                    skip = True
+            if skip:
+                continue
             if c is None:
                 unspec = True
             elif c:
